@@ -190,6 +190,40 @@ theorem slice_output_reindexed_e2e (c : CubeData) (rows cols : TDim) (t : SliceO
       · rw [← ht]; exact (slice_order_subset c r cl hwf).1
       · rw [← ht]; exact (slice_order_subset c r cl hwf).2
 
+/-- **every theorem of this file reads end to end**: whenever the pipeline returns from the
+    typed dimensions and their transforms dicts, it is `runSlice` on the resolved dimensions,
+    the pipeline under strip t is `runSlice` on the stripped resolved dimensions, and the typed
+    side conditions give `SliceWF` — so each statement above about `runSlice c r cl` and
+    `runSlice c r.strip cl.strip` is a statement about `slicePipeline c rows cols` and
+    `slicePipeline c rows.strip cols.strip`. -/
+theorem slice_pipeline_factors (c : CubeData) (rows cols : TDim) (t : SliceOut)
+    (ht : slicePipeline c rows cols = some t) :
+    ∃ r cl, rows.resolve = some r ∧ cols.resolve = some cl ∧ t = runSlice c r cl ∧
+      slicePipeline c rows.strip cols.strip = some (runSlice c r.strip cl.strip) ∧
+      (TSliceWF c rows cols → SliceWF c r cl) := by
+  unfold slicePipeline at ht ⊢
+  rw [resolve_strip, resolve_strip]
+  cases hr : rows.resolve with
+  | none => simp [hr] at ht
+  | some r =>
+    cases hc : cols.resolve with
+    | none => simp [hr, hc] at ht
+    | some cl =>
+      simp only [hr, hc, Option.some.injEq] at ht
+      exact ⟨r, cl, rfl, rfl, ht.symm, rfl, sliceWF_of_resolve c rows cols r cl hr hc⟩
+
+theorem strand_pipeline_factors (c : StrandData) (d : TDim) (t : StrandOut)
+    (ht : strandPipeline c d = some t) :
+    ∃ r, d.resolve = some r ∧ t = runStrand c r ∧
+      strandPipeline c d.strip = some (runStrand c r.strip) := by
+  unfold strandPipeline at ht ⊢
+  rw [resolve_strip]
+  cases hr : d.resolve with
+  | none => simp [hr] at ht
+  | some r =>
+    simp only [hr, Option.map_some, Option.some.injEq] at ht
+    exact ⟨r, rfl, ht.symm, rfl⟩
+
 theorem strand_output_reindexed (c : StrandData) (d : RDim) (h : StrandWF c d) (key : SKey) :
     let t := runStrand c d
     let s := runStrand c d.strip
@@ -354,6 +388,74 @@ theorem slice_inserted_reads_insertion (c : CubeData) (rows cols : RDim) (h : Sl
     rw [assembleMatrix_cell _ _ _ p q _ _ hp hq, er, ec]
     exact cell_inter (toA (sliceBlocks c rows cols key)) k l hk'
       (by show l < (sliceBlocks c rows cols key).ncs; omega)
+
+/-- position-valued outputs (inserted / difference / derived index lists) are RENUMBERED: a
+    displayed position is listed under t iff the position of the same vector under strip t is
+    listed there; the label / code / alias / fill index re-indexes like a value vector -/
+theorem slice_position_outputs_renumbered (c : CubeData) (rows cols : RDim) (h : SliceWF c rows cols) (p : Nat) :
+    let t := runSlice c rows cols
+    let s := runSlice c rows.strip cols.strip
+    (p ∈ t.insertedRowIdxs ↔ ∃ x, t.rowOrder[p]? = some x ∧ s.rowOrder.idxOf x ∈ s.insertedRowIdxs) ∧
+    (p ∈ t.insertedColIdxs ↔ ∃ y, t.colOrder[p]? = some y ∧ s.colOrder.idxOf y ∈ s.insertedColIdxs) ∧
+    (p ∈ t.diffRowIdxs ↔ ∃ x, t.rowOrder[p]? = some x ∧ s.rowOrder.idxOf x ∈ s.diffRowIdxs) ∧
+    (p ∈ t.diffColIdxs ↔ ∃ y, t.colOrder[p]? = some y ∧ s.colOrder.idxOf y ∈ s.diffColIdxs) ∧
+    (p ∈ t.derivedRowIdxs ↔ ∃ x, t.rowOrder[p]? = some x ∧ s.rowOrder.idxOf x ∈ s.derivedRowIdxs) ∧
+    (p ∈ t.derivedColIdxs ↔ ∃ y, t.colOrder[p]? = some y ∧ s.colOrder.idxOf y ∈ s.derivedColIdxs) ∧
+    t.rowLabelIdxs = t.rowOrder.map (fun x => s.rowLabelIdxs.getD (s.rowOrder.idxOf x) 0) ∧
+    t.colLabelIdxs = t.colOrder.map (fun y => s.colLabelIdxs.getD (s.colOrder.idxOf y) 0) := by
+  obtain ⟨hr, hc⟩ := slice_order_subset c rows cols h
+  exact ⟨negPositions_renumber _ _ hr p, negPositions_renumber _ _ hc p,
+    flagPositions_renumber _ _ _ hr p, flagPositions_renumber _ _ _ hc p,
+    flagPositions_renumber _ _ _ hr p, flagPositions_renumber _ _ _ hc p,
+    labelIdxs_reindex _ _ _ hr, labelIdxs_reindex _ _ _ hc⟩
+
+/-- which subtotal rows are differences: position p is listed iff the order names there the
+    k-th subtotal and that subtotal has a subtrahend that exists -/
+theorem slice_diff_idxs_def (c : CubeData) (rows cols : RDim) (h : SliceWF c rows cols) (p : Nat) :
+    p ∈ (runSlice c rows cols).diffRowIdxs ↔
+      ∃ k, k < rows.subtotals.length ∧
+        (sliceRowOrder c rows cols)[p]? = some ((k : Int) - (rows.subtotals.length : Int)) ∧
+        (subAt rows.subtotals k).isDiff = true := by
+  have hsl := h.2.2.2.2.2.2.1
+  show p ∈ flagPositions _ _ ↔ _
+  rw [mem_flagPositions]
+  have hlen : (List.replicate rows.cdim.elems.length false ++ rows.subtotals.map Subtotal.isDiff).length
+      = rows.cdim.elems.length + rows.subtotals.length := by simp
+  constructor
+  · rintro ⟨x, hx, hf⟩
+    have hmem := List.mem_of_getElem? hx
+    rcases run_mem_cases rows.cdim _ _ h.1 (rowROrder_wf c rows cols h) (mem_helper.1 hmem).1 with
+      ⟨i, rfl, hi, _⟩ | hneg
+    · rw [hlen, wrapIdx_nat, List.getD_eq_getElem?_getD,
+        List.getElem?_append_left (by simpa using hi)] at hf
+      simp [List.getElem?_replicate, hi] at hf
+    · obtain ⟨hlo, hhi⟩ := mem_negIdxs.1 hneg
+      rw [← hsl] at hlo
+      refine ⟨(x + rows.subtotals.length).toNat, by omega, ?_, ?_⟩
+      · rw [hx]; congr 1; omega
+      · have hxk : x = (((x + rows.subtotals.length).toNat : Nat) : Int) - (rows.subtotals.length : Int) := by omega
+        rw [hlen, hxk, wrapIdx_neg _ _ _ (by omega) (Nat.le_add_left _ _), List.getD_eq_getElem?_getD,
+          List.getElem?_append_right (by simp)] at hf
+        simp only [List.length_replicate] at hf
+        have hidx : rows.cdim.elems.length + rows.subtotals.length - rows.subtotals.length
+            + (x + rows.subtotals.length).toNat - rows.cdim.elems.length = (x + rows.subtotals.length).toNat := by omega
+        rw [hidx, List.getElem?_map] at hf
+        unfold subAt
+        rw [List.getD_eq_getElem?_getD]
+        cases hg : rows.subtotals[(x + ↑rows.subtotals.length).toNat]? with
+        | none => simp [hg] at hf
+        | some sb => simpa [hg] using hf
+  · rintro ⟨k, hk, hp, hd⟩
+    refine ⟨_, hp, ?_⟩
+    rw [hlen, wrapIdx_neg _ _ _ hk (Nat.le_add_left _ _), List.getD_eq_getElem?_getD,
+      List.getElem?_append_right (by simp)]
+    simp only [List.length_replicate]
+    have hidx : rows.cdim.elems.length + rows.subtotals.length - rows.subtotals.length + k
+        - rows.cdim.elems.length = k := by omega
+    rw [hidx, List.getElem?_map, List.getElem?_eq_getElem hk]
+    unfold subAt at hd
+    rw [List.getD_eq_getElem?_getD, List.getElem?_eq_getElem hk] at hd
+    simpa using hd
 
 /-- labels, codes, aliases and fills are read with the same signed index as the values:
     displayed position p shows element i's label when the order says i, and the k-th
